@@ -145,7 +145,7 @@ def replay_kani(prop, result, tier, scratch=None, watchdog_s=20):
            "overflow_only": overflow_only,
            "detail": "; ".join(f"{o['test']}:{o['outcome']}" for o in outcomes)}
     lift = meta.get("lift", "").strip()
-    if rep and (lift == "name" or lift.startswith("rr:")):
+    if rep and (lift.startswith("name") or lift.startswith("rr:")):
         # unit-level reader state -> whole datagram through DnsIncoming::new (DESIGN 2.6)
         lifted = []
         for kind, desc, fn, tcode in cand:
@@ -154,7 +154,12 @@ def replay_kani(prop, result, tier, scratch=None, watchdog_s=20):
                 continue
             window = [b for v in vals[:-1] for b in v]  # [u8; N] arrives as N one-byte values
             off = int.from_bytes(bytes(vals[-1]), "little")
-            if lift == "name":
+            if lift == "name:overwrite-even":
+                # N initial bytes, then one bool per even position (0xC0 if true else 0x00), then the offset
+                n = (len(window) * 2) // 3
+                init, bools = window[:n], window[n:]
+                window = [(0xC0 if bools[i // 2] else 0x00) if i % 2 == 0 else init[i] for i in range(n)]
+            if lift.startswith("name"):
                 dg = lift_name_window(window, off)
             else:
                 parts = lift.split(":")
